@@ -35,6 +35,7 @@ mod show;
 mod shrink;
 mod simuser;
 mod statedrv;
+mod surface;
 mod valid;
 
 use framework::{Check, Tier};
